@@ -104,7 +104,7 @@ def run(tier, rep, replay=None):
 
 
 MANIFEST = {
- "text": "HpkeP256Job.tla is the RFC 9180 sender setup in all four modes for DHKEM(P-256, HKDF-SHA256) + HKDF-SHA256 (DeriveKeyPair with the candidate / bitmask rule, scalar multiplication on P-256 one action per bit, SerializePublicKey, kem_context with pkSm and the second DH in the auth modes), reproducing RFC 9180 A.3.1. HpkeJob.tla is the RFC 9180 sender setup (base and PSK mode) for DHKEM(X25519, HKDF-SHA256) + HKDF-SHA256 as an executable behaviour - DeriveKeyPair, LabeledExtract / LabeledExpand over HMAC-SHA-256 (Sha256Ops.tla, one action per round), X25519 by the RFC 7748 ladder, ExtractAndExpand, key schedule - with which TLC recomputes enc, key, base_nonce and exporter secret of sampled setups of the run after reproducing RFC 9180 A.1.1 and rejecting a falsified key. HpkeSetup.tla writes RFC 9180 sections 4-5 as symbolic terms (suite ids, LabeledExtract/Expand, DHKEM incl. the P-curve rejection loop, KeySchedule, Seal nonce, Export, VerifyPSKInputs) and a setup state machine; TLC checks symbolically that a receiver derives the sender's context iff no input deviates (DH commutation normalised) and the PSK rule table. TLC emits the terms for all 7 KEM x 3 KDF x 3 AEAD x 4 mode combinations; the harness evaluates them with non-circl primitives and compares enc, DeriveKeyPair output, key, base_nonce, exporter secret, first ciphertext and exports (5 lengths incl. 0 and 255*Nh) with what real Sender objects produce, runs receivers that deviate in exactly one input, and TLC judges every recorded scenario.",
+ "text": "HpkeP256Job.tla is the RFC 9180 sender setup in all four modes for DHKEM(P-256, HKDF-SHA256) + HKDF-SHA256 (DeriveKeyPair with the candidate / bitmask rule, scalar multiplication on P-256 one action per bit, SerializePublicKey, kem_context with pkSm and the second DH in the auth modes), reproducing RFC 9180 A.3.1. HpkeJob.tla is the RFC 9180 sender setup (base and PSK mode) for DHKEM(X25519, HKDF-SHA256) + HKDF-SHA256 as an executable behaviour - DeriveKeyPair, LabeledExtract / LabeledExpand over HMAC-SHA-256 (Sha256Ops.tla, one action per round), X25519 by the RFC 7748 ladder, ExtractAndExpand, key schedule - with which TLC recomputes enc, key, base_nonce and exporter secret of sampled setups of the run after reproducing RFC 9180 A.1.1 and rejecting a falsified key. HpkeSetup.tla writes RFC 9180 sections 4-5 as symbolic terms (suite ids, LabeledExtract/Expand, DHKEM incl. the P-curve rejection loop, KeySchedule, Seal nonce, Export, VerifyPSKInputs) and a setup state machine; TLC checks symbolically that a receiver derives the sender's context iff no input deviates (DH commutation normalised) and the PSK rule table. TLC emits the terms for all 7 KEM x 3 KDF x 3 AEAD x 4 mode combinations; the harness evaluates them with non-circl primitives and compares enc, DeriveKeyPair output, key, base_nonce, exporter secret, first ciphertext and exports (5 lengths incl. 0 and 255*Nh) with what real Sender objects produce, runs receivers that deviate in exactly one input, and TLC judges every recorded scenario. Receiver deviations include a sender identity of low order (pkS-low-order: setup must fail, RFC 9180 7.1.4).",
  "note": "Trusted: Go standard library / x/crypto primitives that interpret the term symbols. Inputs are seeded random (1 concretisation per scenario in quick, 12 in thorough), not exhaustive. Sender reuse across modes is out of scope.",
  "technique": "executable RFC 9180 (X25519 / HKDF-SHA256 suites) in TLA+ recomputing sampled contexts + TLC symbolic model check of RFC 9180 term algebra + TLC-emitted terms evaluated by an independent evaluator and compared with real hpke + TLC trace judgement",
 }
